@@ -160,8 +160,12 @@ func TestConcurrent(t *testing.T) {
 				plans[i] = append(plans[i], omap.RandomOp(t))
 			}
 		}
+		before := run.RaceLogSize()
 		if d := omap.Concurrent(omap.Factories[typ], plans); d != "" {
 			run.Fail(t, chkConc, map[string]any{"map_type": typ, "plans": plans}, "%s", d)
+		}
+		if run.RaceLogSize() > before {
+			run.Fail(t, chkConc, map[string]any{"map_type": typ, "plans": plans}, "the race detector reported a data race during this plan:\n%s", run.RaceLogTail())
 		}
 		run.Eval(chkConc, true, typ, fmt.Sprint(plans))
 		run.Label("concurrent-plan")
